@@ -38,6 +38,11 @@ type Memory struct {
 	Pages     map[uint32]*Page
 	HeapPtr   uint64
 	HeapLimit uint64
+	// SbrkMaxPages (0 = no bound) keeps the reference from materialising gigabytes: an
+	// sbrk that would map more new pages than this sets TooBig and changes nothing;
+	// the caller must then discard the run.
+	SbrkMaxPages int
+	TooBig       bool
 
 	// optional undo journal (Begin / Rollback) so that one Memory can serve
 	// many runs without being cloned
@@ -75,6 +80,7 @@ func (m *Memory) Rollback() {
 	}
 	m.added = m.added[:0]
 	m.HeapPtr = m.heap0
+	m.TooBig = false
 	m.journaling = false
 }
 
@@ -210,6 +216,10 @@ func (m *Memory) Sbrk(n uint64) uint64 {
 	}
 	first := m.HeapPtr >> pageShift
 	last := (nh - 1) >> pageShift
+	if m.SbrkMaxPages > 0 && last-first+1 > uint64(m.SbrkMaxPages) {
+		m.TooBig = true
+		return 0
+	}
 	for pg := first; pg <= last; pg++ {
 		if _, ok := m.Pages[uint32(pg)]; !ok {
 			m.Pages[uint32(pg)] = &Page{Access: AccWrite, Data: make([]byte, PageSize)}
